@@ -425,6 +425,9 @@ def display_result(r, out, brackets_for_frac=False, newline=True, unit_format_fn
             if i < len(r)-1:
                 print(", ", file=out, end="")
         print("}", file=out, **newline_args)
+    elif isinstance(r, Interval):
+        # Bounds are shown like array elements (floats at the configured precision).
+        print(stringify_result(r), file=out, **newline_args)
     else:
         print(r, file=out, **newline_args)
 
